@@ -125,6 +125,7 @@ CHECKS["C09"] = {
     "units": [
         {"name": "ratelimiter", "pkg": "pkg/util/ratelimiter", "test": "TestVerifC09"},
         {"name": "rlfilter", "pkg": "pkg/filters/ratelimiter", "test": "TestVerifC09filter", "workers": 8},
+        {"name": "mqttlimiter", "pkg": "pkg/object/mqttproxy", "test": "TestVerifC09mqtt", "workers": 8},
     ],
 }
 
